@@ -48,6 +48,18 @@ class _Abort(BaseException):
     """Leaves the Hypothesis engine at once (budget reached / shrink cap reached)."""
 
 
+def _release_memory():
+    """Long shards build hundreds of solvers, each with its own jitted closures: drop JAX's caches now and then."""
+    import gc
+
+    if "jax" in sys.modules:
+        try:
+            sys.modules["jax"].clear_caches()
+        except Exception:
+            pass
+    gc.collect()
+
+
 def canon(obj) -> str:
     return json.dumps(obj, sort_keys=True, separators=(",", ":"), default=_json_default)
 
@@ -178,6 +190,8 @@ def run_shard(pid: str, tier: str, shard: int, nshards: int, base_seed: int, wor
                         raise _Abort()
                     v = mod.judge(case)
                     st_["n"] += 1
+                    if st_["n"] % 25 == 0:
+                        _release_memory()
                     record(case, v)
                     if v["ok"]:
                         return
